@@ -160,6 +160,8 @@ class BuiltinMixin:
     return VBool(False)
 
   def bi_dict(self, it, a, k):
+    if a and isinstance(a[0], VCounterView):
+      return a[0]
     if not a:
       return VDict(dict(k))
     if len(a) == 1 and isinstance(a[0], VDict):
@@ -254,7 +256,40 @@ class BuiltinMixin:
     return NONE
 
   def bi_sorted(self, it, a, k):
+    if a and isinstance(a[0], VCounterView):
+      return a[0]            # the same entries; their order is not modelled
     raise Unsupported('sorted')
+
+  def counter_from_view(self, view):
+    """collections.Counter(dict(view)): a NEW counter holding `limit` of the entries of view.m with their counts."""
+    m = view.m
+    c = self.fresh_map('obj', 'int', 'counter')
+    c.is_counter = True
+    kk = z3.Const(self.path.fresh_name('k'), m.ksort)
+    sub = z3.ForAll([kk], z3.Implies(z3.Select(c.has, kk), z3.And(z3.Select(m.has, kk), z3.Select(c.val, kk) == z3.Select(m.val, kk))))
+    same = z3.ForAll([kk], z3.Select(c.has, kk) == z3.Select(m.has, kk))
+    self.assume(sub)
+    if view.limit is None:
+      self.assume(z3.And(same, c.size == m.size))
+    else:
+      lim = z3.If(view.limit < 0, z3.IntVal(0), view.limit)
+      self.assume(z3.Implies(m.size <= lim, z3.And(same, c.size == m.size)))
+      self.assume(z3.Implies(m.size > lim, c.size == lim))
+    return c
+
+  def lib_collections_Counter(self, it, a, k):
+    if not a:
+      c = self.fresh_map('obj', 'int', 'counter')
+      c.is_counter = True
+      c.has = z3.K(Obj, z3.BoolVal(False))
+      self.assume(c.size == 0)
+      return c
+    v = self.unopt(a[0])
+    if isinstance(v, VCounterView):
+      return self.counter_from_view(v)
+    if isinstance(v, VMap) and v.is_counter:
+      return self.counter_from_view(VCounterView(v))
+    raise Unsupported(f'Counter({type(v).__name__})')
 
   def bi_setattr(self, it, a, k):
     self.setattr_(a[0], a[1].s, a[2])
@@ -517,7 +552,18 @@ class BuiltinMixin:
 
   def lib_collections_deque(self, it, a, k):
     kind = self.reg.default_elem_kind
-    return VMList(VSeq(z3.K(z3.IntSort(), _default(kind)), z3.IntVal(0), kind), is_deque=True)
+    d = VMList(VSeq(z3.K(z3.IntSort(), _default(kind)), z3.IntVal(0), kind), is_deque=True)
+    if a:
+      raise Unsupported('deque(iterable)')
+    # maxlen: -1 stands for None (unbounded); a bounded deque drops its OLDEST element when a full one is appended to
+    ml = k.get('maxlen')
+    if ml is None or isinstance(self.unopt(ml) if not isinstance(ml, VOpt) else ml, VNoneT):
+      d.maxlen = z3.IntVal(-1)
+    elif isinstance(ml, VOpt):
+      d.maxlen = z3.If(ml.isnone, z3.IntVal(-1), self.to_int(ml.val))
+    else:
+      d.maxlen = self.to_int(ml)
+    return d
 
   def lib_collections_OrderedDict(self, it, a, k):
     m = self.fresh_map('obj', 'obj', 'odict', ordered=True)
